@@ -2,7 +2,7 @@
 # usage: vf/mutrun.sh <patch.diff> <Cnn> [tier]   -- run a check against a seeded change applied to a scratch
 # worktree (/tmp/mut/cur) of /repo's current HEAD
 patch=$1; c=$2; tier=${3:-quick}
-wt=/tmp/mut/cur
+wt=${MUTWT:-/tmp/mut/cur}
 git -C $wt checkout -q --detach $(git -C /repo rev-parse HEAD) && git -C $wt checkout -q -- . && git -C $wt apply $patch || { echo "PATCH FAILED"; exit 3; }
 mkdir -p /var/tmp/mut-evidence/replay; VERIF_EVIDENCE_DIR=/var/tmp/mut-evidence VERIF_REPO=$wt /verif/check $c $tier > /var/tmp/mutrun.$$.log 2>&1; rc=$?
 grep -c "^VIOLATION" /var/tmp/mutrun.$$.log | sed "s/^/violations: /"
